@@ -1,3 +1,34 @@
-import LokiModel.C25.Model
+import LokiModel.Props.C25
+/-!
+# C25 — witnesses of open defects (non-gating)
+
+`wAfter` is the state the model (and, by the correspondence on the request of corpus/C25/witnesses.sexp, the real
+scheduler) is in after `DependencyTransformation(suffix='_x')` on the project `r0 (driver) calls r1 (role driver)`:
+the call in `r0` has been renamed to `r1_x` (`rename_calls` renames every target), the routine `r1` has not
+(`role == 'kernel'` only), the graph holds the unresolved item `#r1_x`.  The invariant fails at `present`.
+(The state is written out because the kernel cannot evaluate the string functions of `opDep` by `decide`.)
+-/
 namespace LokiModel.C25
+open LokiModel.C21 (Graph)
+
+def wAfter : St :=
+  { defs := [⟨.proc "" "r0", [.proc "" "r1_x"], "f0", true⟩, ⟨.proc "" "r1", [], "f1", true⟩]
+    disk := [⟨.proc "" "r0", [.proc "" "r1"], "f0", true⟩, ⟨.proc "" "r1", [], "f1", true⟩]
+    cache := [(.proc "" "r0", .proc "" "r0"), (.proc "" "r1", .proc "" "r1")]
+    seeds := [.proc "" "r0"], strict := false, cinc := true
+    graph := ⟨[.proc "" "r0", .proc "" "r1_x"], [(.proc "" "r0", .proc "" "r1_x")]⟩ }
+
+theorem C25_driver_callee_witness : ¬ Consistent wAfter := by
+  intro h
+  have := h.present (.proc "" "r1_x") (by decide)
+  revert this
+  decide
+
+/-- the local condition of `C25_present_of_localClosed` is what fails -/
+theorem C25_driver_callee_not_localClosed : ¬ LocalClosed wAfter.defs := by
+  intro h
+  have := h ⟨.proc "" "r0", [.proc "" "r1_x"], "f0", true⟩ (by decide) (.proc "" "r1_x") (by decide)
+  revert this
+  decide
+
 end LokiModel.C25
